@@ -644,6 +644,8 @@ def dependents(ck, ctx):
 
 
 def run(ck, ctx):
+    from . import C14 as R14
+    R14.producer_never_cleared(ck, ctx, "dependents")
     C.adapter_census(ck, ctx, "queues", ("work::", "graph::"))
     C.loops_complete(ck, ctx, "ready-recheck", [("work::Work::ready_dependents", "work::Work::recheck_ready", "the dependents of a finished step"), ("work::Work::ready_dependents", "std::collections::HashSet::insert", "the outputs' dependents")])
     SM.eff_table(ck, ctx, ["replace", "ready-push", "pending+", "pending-"])
